@@ -171,7 +171,30 @@ func verifCheckNesting(events []verifEvent, what string) []cypher.SyntaxNode {
 // modelled node (every pointer to a cypher model struct reachable from the root that is a
 // SyntaxNode) exactly once, and a superset of what the semantic walk visits.
 func VerifC11Walk() {
-	m := verifCorpusModel()
+	verifCheckWalk(verifCorpusModel())
+}
+
+// VerifC11Generated: the copy and walk requirements on the model of every sentence derived
+// from the grammar (one per rule, alternative, optional part, repetition and pair of
+// optional parts of Cypher.g4) that the parser accepts: model shapes no corpus query has.
+func VerifC11Generated(from, to int) {
+	if to > len(verifGenerated) {
+		to = len(verifGenerated)
+	}
+	if from >= to {
+		return
+	}
+	m, err := verifNativeParse(verifGenerated[from+verifrt.NondetChoice("sentence", to-from)], nil)
+	if err != nil || m == nil {
+		return
+	}
+	verifCheckWalk(m)
+	c := cypher.Copy(m)
+	verifrt.Assert(verifrt.DeepEqual(m, c), "a copy is structurally equal to the original")
+	verifrt.Assert(verifrt.Disjoint(m, c, verifKindType), "a copy shares no mutable part with the original")
+}
+
+func verifCheckWalk(m *cypher.RegularQuery) {
 	rec := newVerifRecorder()
 	err := walk.CypherStructural(m, rec)
 	verifrt.Assert(err == nil, "structural walk of a parsed model succeeds")
